@@ -6,6 +6,12 @@ from .kernel import rid
 TYPES = ["iter", "intersect_0", "intersect_1", "populate_read_0", "populate_write_0", "populate_1"]
 
 
+def tr_ranks(k):
+    """ranks whose traces are registered: all loop ranks; for the product reduction only M (K is walked by iterShape: ticks, traces nothing - DESIGN.md 10.3)"""
+    rs = [rid(v) for v in k["order"]]
+    return rs[:1] if k["expr"].get("prod") else rs
+
+
 def sessions_cases(ctx, n_cases, per=4):
     rng = ctx.rng
     pool = [k for k in kernel_cases(rng, 3 if ctx.quick else 12, True, pz=0.3) if not k.get("tile") or rng.random() < 0.3]
@@ -16,7 +22,12 @@ def sessions_cases(ctx, n_cases, per=4):
         # negative values: sums that cancel assign the value the output reference already holds (an update all the same)
         b = {"k": "F", "e": [[c, {"k": "L", "v": -p["v"] if rng.random() < 0.5 else p["v"]}] for c, p in b["e"]]}
         pool.append({"shape": "ewadd", "expr": plus, "ops": {"A": no_ghost_tree(rng, 4, 1, 0.2), "B": b}, "order": ["m"], "style": "tf",
-                     "extents": {"m": 4}, "zshape": 1})
+                     "extents": {"m": 4}, "zshape": 1, "warm": rng.choice([0, 1])})
+    # dense product reductions P[m] = prod_k A[m,k] with `*=` bodies (rows holding zeros: the running product becomes and stays 0)
+    prod = {"out": ["m"], "facs": [{"t": "A", "ix": ["m", "k"]}], "prod": 1}
+    for _ in range(len(pool) // 8 + 3):
+        pool.append({"shape": "prodreduce", "expr": prod, "ops": {"A": no_ghost_tree(rng, 3, 2, 0.3)}, "order": ["m", "k"], "style": "tf",
+                     "extents": {"m": 3, "k": 3}, "zshape": 1})
     cases = []
     for _ in range(n_cases):
         ks = [dict(k) for k in rng.sample(pool, 2)]
@@ -41,6 +52,8 @@ def sessions_cases(ctx, n_cases, per=4):
             k["zshape"] = 1
             ranks = [rid(v) for v in k["order"]]
             collect = rng.choice([0, 1, 1])
+            if k["expr"].get("prod"):
+                ranks = ranks[:1]           # the K rank is walked by iterShape (ticks, traces nothing - DESIGN.md 10.3)
             traces = sorted([r, t] for r in ranks for t in TYPES if rng.random() < 0.3)
             seq.append({"kid": kidx, "kernel": k, "collect": collect, "traces": traces if collect else [], "ncache": rng.choice([0, 0, 2, 3]) if collect else 0,
                         "dirty": rng.choice([0, 0, 0, 1, 2]),
@@ -48,13 +61,13 @@ def sessions_cases(ctx, n_cases, per=4):
         # make sure every kernel of the case is seen both off and on, and repeated with the same traces
         base = seq[0]
         seq.append(dict(base, collect=0, traces=[], abort=0, ncache=0))
-        on = dict(base, collect=1, traces=sorted([r, "iter"] for r in [rid(v) for v in base["kernel"]["order"]]), abort=0, ncache=0)
+        on = dict(base, collect=1, traces=sorted([r, "iter"] for r in tr_ranks(base["kernel"])), abort=0, ncache=0)
         seq.insert(rng.randint(0, len(seq)), on)
         seq.append(dict(on, ncache=rng.choice([0, 2])))
         other = [x for x in seq if x["kid"] != base["kid"]]
         if other:
             o = other[0]
-            seq.append(dict(o, collect=1, traces=sorted([r, "iter"] for r in [rid(v) for v in o["kernel"]["order"]]), abort=0, ncache=0))
+            seq.append(dict(o, collect=1, traces=sorted([r, "iter"] for r in tr_ranks(o["kernel"])), abort=0, ncache=0))
             seq.append(dict(o, collect=0, traces=[], abort=0, ncache=0))
         cases.append({"sessions": seq})
     # the second class of outputs: tensors WITHOUT a declared shape (kept apart so that a finding there cannot hide the rest)
